@@ -735,6 +735,7 @@ func (w *WAL) resetEmptyFirstSegmentBaseIndex(newBaseIndex uint64) error {
 
 func (w *WAL) truncateHeadLocked(newMin uint64) error {
 	txn := stateTxn(func(newState *state) (func(), func() error, error) {
+		oldFirstIndex := newState.firstIndex()
 		oldLastIndex := newState.lastIndex()
 
 		// Iterate the segments to find any that are entirely deleted.
@@ -742,17 +743,23 @@ func (w *WAL) truncateHeadLocked(newMin uint64) error {
 		toClose := make([]io.Closer, 0, 1)
 		it := newState.segments.Iterator()
 		var head *segmentState
+		// Count the entries actually removed: those of [first, last] below newMin.
 		nTruncated := uint64(0)
+		if oldFirstIndex > 0 && newMin > oldFirstIndex {
+			upTo := newMin
+			if upTo > oldLastIndex+1 {
+				upTo = oldLastIndex + 1
+			}
+			nTruncated = upTo - oldFirstIndex
+		}
 		for !it.Done() {
 			_, seg, _ := it.Next()
 
-			maxIdx := seg.MaxIndex
 			// If the segment is the tail (unsealed) or a sealed segment that contains
 			// this new min then we've found the new head.
 			if seg.SealTime.IsZero() {
-				maxIdx = newState.lastIndex()
 				// This is the tail, check if it actually has any content to keep
-				if maxIdx >= newMin {
+				if newState.lastIndex() >= newMin {
 					head = &seg
 					break
 				}
@@ -764,15 +771,12 @@ func (w *WAL) truncateHeadLocked(newMin uint64) error {
 			toDelete[seg.ID] = seg.BaseIndex
 			toClose = append(toClose, seg.r)
 			newState.segments = newState.segments.Delete(seg.BaseIndex)
-			nTruncated += (maxIdx - seg.MinIndex + 1) // +1 because MaxIndex is inclusive
 		}
 
 		// There may not be any segments (left) but if there are, update the new
 		// head's MinIndex.
 		var postCommit func() error
 		if head != nil {
-			// new
-			nTruncated += (newMin - head.MinIndex)
 			head.MinIndex = newMin
 			newState.segments = newState.segments.Set(head.BaseIndex, *head)
 		} else {
@@ -805,13 +809,18 @@ func (w *WAL) truncateHeadLocked(newMin uint64) error {
 
 func (w *WAL) truncateTailLocked(newMax uint64) error {
 	txn := stateTxn(func(newState *state) (func(), func() error, error) {
+		// Count the entries actually removed: those of the log above newMax.
+		nTruncated := uint64(0)
+		if oldLastIndex := newState.lastIndex(); oldLastIndex > newMax {
+			nTruncated = oldLastIndex - newMax
+		}
+
 		// Reverse iterate the segments to find any that are entirely deleted.
 		toDelete := make(map[uint64]uint64)
 		toClose := make([]io.Closer, 0, 1)
 		it := newState.segments.Iterator()
 		it.Last()
 
-		nTruncated := uint64(0)
 		for !it.Done() {
 			_, seg, _ := it.Prev()
 
@@ -820,21 +829,13 @@ func (w *WAL) truncateTailLocked(newMax uint64) error {
 				break
 			}
 
-			maxIdx := seg.MaxIndex
-			if seg.SealTime.IsZero() {
-				maxIdx = newState.lastIndex()
-			}
-
 			toDelete[seg.ID] = seg.BaseIndex
 			toClose = append(toClose, seg.r)
 			newState.segments = newState.segments.Delete(seg.BaseIndex)
-			nTruncated += (maxIdx - seg.MinIndex + 1) // +1 because MaxIndex is inclusive
 		}
 
 		tail := newState.getTailInfo()
 		if tail != nil {
-			maxIdx := tail.MaxIndex
-
 			// Check that the tail is sealed (it won't be if we didn't need to remove
 			// the actual partial tail above).
 			if tail.SealTime.IsZero() {
@@ -846,10 +847,8 @@ func (w *WAL) truncateTailLocked(newMax uint64) error {
 				}
 				tail.IndexStart = indexStart
 				tail.SealTime = time.Now()
-				maxIdx = newState.lastIndex()
 			}
 			// Update the MaxIndex
-			nTruncated += (maxIdx - newMax)
 			tail.MaxIndex = newMax
 
 			// And update the tail in the new state
